@@ -2,7 +2,7 @@
    Property theorems only; proofs live in Proofs/InputsP.v, Proofs/AcceptsP.v, Proofs/DefaultsP.v. *)
 From Coq Require Import List String Ascii ZArith Bool Lia.
 From AC Require Import Base.Json Base.Strs Gql.InSchema Gql.InCoerce Model.Names Model.Defaults Model.Inputs
-  Py.PyEval Proofs.InputsP Proofs.FreshP Proofs.AcceptsP Proofs.DefaultsP Proofs.ValidateP Proofs.ByNameP Proofs.ReshapeP Proofs.ChainP.
+  Py.PyEval Proofs.InputsP Proofs.FreshP Proofs.AcceptsP Proofs.DefaultsP Proofs.ValidateP Proofs.ByNameP Proofs.ReshapeP Proofs.ChainP Proofs.ConverseP.
 Import ListNotations.
 Local Open Scope string_scope.
 
@@ -504,3 +504,44 @@ Example C06_good_default_w_witnesses :
   strip_nulls (JObj [("k", JStr "B"); ("n", JInt 3); ("s", JNull)]) = JObj [("k", JStr "B"); ("n", JInt 3)].
 Proof. vm_compute. auto. Qed.
 
+(* ================= the "refuses" half: accepted by the model => accepted by the schema ================= *)
+(* On values in canonical form (canon: leaves of the JSON kind of their type, Int in 32 bits, only known keys,
+   no null for a non-null custom scalar — exactly the places where pydantic's lax mode / Any / extra=ignore are
+   more liberal than GraphQL, see C06_converse_refuted) a value the generated model accepts is accepted by the
+   schema's coercion at some fuel.  Hypotheses: schema_ok and "every schema default is a valid literal" (schema
+   validity).  Contrapositive: the model refuses null at non-null positions, missing required fields, unknown enum
+   values and list/object/scalar shape mismatches at least as strictly as the schema. *)
+Theorem C06_input_accepts_only : forall s cs snake, schema_ok snake s = true ->
+  (forall nm fs f d, kind_of s nm = KInput fs -> In f fs -> i_default f = Some d ->
+     exists m cv, coerced_default m s (i_type f) d = Some cv) ->
+  forall n t nb j, canon s j t = true ->
+  accepts n (env_of s cs snake) (fst (parse_input_field_type s cs t nb)) j = true ->
+  exists m cv, coerce_input m s t j = Some cv.
+Proof. exact accepts_sound. Qed.
+Print Assumptions C06_input_accepts_only.
+
+Theorem C06_refuses_what_the_schema_refuses : forall s cs snake, schema_ok snake s = true ->
+  (forall nm fs f d, kind_of s nm = KInput fs -> In f fs -> i_default f = Some d ->
+     exists m cv, coerced_default m s (i_type f) d = Some cv) ->
+  forall n t nb j, canon s j t = true -> (forall m, coerce_input m s t j = None) ->
+  accepts n (env_of s cs snake) (fst (parse_input_field_type s cs t nb)) j = false.
+Proof.
+  intros s cs snake OK VD n t nb j Cn R. apply not_true_iff_false. intro A.
+  destruct (accepts_sound s cs snake OK VD n t nb j Cn A) as [m [cv H]]. rewrite R in H. discriminate.
+Qed.
+Print Assumptions C06_refuses_what_the_schema_refuses.
+
+Theorem C06_coerce_input_mono : forall s n m t j cv, n <= m ->
+  coerce_input n s t j = Some cv -> coerce_input m s t j = Some cv.
+Proof. exact coerce_input_mono. Qed.
+Print Assumptions C06_coerce_input_mono.
+
+Example C06_canon_examples :
+  canon SX JX (TNonNull (TNamed "In")) = true /\
+  canon SX (JObj [("class", JArr [JObj [("fooBar", JStr "1")]])]) (TNonNull (TNamed "In")) = false /\
+  canon SX (JObj [("class", JNull)]) (TNonNull (TNamed "In")) = true /\
+  accepts 6 (env_of SX [] true) (fst (parse_input_field_type SX [] (TNonNull (TNamed "In")) true))
+          (JObj [("class", JNull)]) = false /\
+  accepts 6 (env_of SX [] true) (fst (parse_input_field_type SX [] (TNonNull (TNamed "In")) true))
+          (JObj [("class", JArr [JObj [("fooBar", JInt 1); ("k", JStr "NOPE")]])]) = false.
+Proof. vm_compute. auto. Qed.
